@@ -1012,15 +1012,12 @@ void SGXMLScanner::scanEndTag(bool& gotData)
     // If we have a doc handler, tell it about the end tag
     if (fDocHandler)
     {
-        if (fGrammarType == Grammar::SchemaGrammarType) {
-            if (topElem->fPrefixColonPos != -1)
-                fPrefixBuf.set(elemName, topElem->fPrefixColonPos);
-            else
-                fPrefixBuf.reset();
-        }
-        else {
-            fPrefixBuf.set(topElem->fThisElement->getElementName()->getPrefix());
-        }
+        //  The prefix is the one written in this tag (the element declaration may be
+        //  shared with an element that used another prefix for the same namespace).
+        if (topElem->fPrefixColonPos != -1)
+            fPrefixBuf.set(elemName, topElem->fPrefixColonPos);
+        else
+            fPrefixBuf.reset();
         fDocHandler->endElement
         (
             *topElem->fThisElement
